@@ -33,11 +33,11 @@ def teardown(ctx):
 def gen_cases(tier, seed):
     thorough = tier == "thorough"
     n = 0
-    for order in ["default"] + ["perm%d" % i for i in range(12 if thorough else 2)]:
+    for order in ["default"] + ["perm%d" % i for i in range(40 if thorough else 2)]:
         yield {"id": "fill-small/%s" % order, "kind": "fill", "mix": "small", "order": order}
         yield {"id": "fill-large/%s" % order, "kind": "fill", "mix": "large", "order": order}
         yield {"id": "fill-exact/%s" % order, "kind": "fill", "mix": "exact", "order": order}
-    for i in range(300 if thorough else 24):
+    for i in range(1200 if thorough else 24):
         yield {"id": "fill-mixed/%d" % i, "kind": "fill", "mix": "mixed", "order": "default" if i % 3 == 0 else "perm%d" % i, "k": i}
     for k in range(72):
         yield {"id": "slot/%d" % k, "kind": "slot", "k": k}
